@@ -26,7 +26,7 @@ class C10(object):
             'condition, or a rejection case')
     assumptions = ['steady-state initialisation off', "initial conditions are spelled X(0) as the model emits them",
                    'a horizon assigned to the solver after ParseString is not "the horizon" (picked up on next parse)']
-    required_counters = ('length.judged', 'exo.judged', 'ic.judged', 'ic.zero_valued.judged', 'model.horizon_chosen_after_exogenous_paths', 'model.declared_through_sector_objects', 'lag.judged', 'time.judged', 'reject.judged',
+    required_counters = ('length.judged', 'exo.judged', 'ic.judged', 'ic.zero_valued.judged', 'model.horizon_chosen_after_exogenous_paths', 'model.declared_through_sector_objects', 'time.judged.with_variable_T_next_to_default_t', 'lag.judged', 'time.judged', 'reject.judged',
                          'model.judged', 'solver_reused.cases', 'ic_on_default_time.judged',
                          'solver_horizon_overrides_line.cases', 'horizon_assigned_after_parse.cases',
                          'exo_on_parameter.judged')
@@ -66,6 +66,14 @@ class C10(object):
             if m == 11:
                 spec['ics'][spec['simul'][0]['name']] = 0.0
             zero_ic = True
+        if m in (2, 6, 10) and spec['time'] is None:
+            # ordinary variables named like the reserved ones up to letter case (T = taxes): the default time axis is
+            # still supplied and equals k
+            have = set(G.all_value_names(spec) + [d['name'] for d in spec['decos']])
+            for nm, val in (('T', 12.5), ('K', 2.0), ('maxtime', 3.0)):
+                if nm not in have:
+                    spec['consts'].append({'name': nm, 'value': val})
+            spec['case_variant_names'] = True
         via = rng.choice(['line', 'line', 'solver', 'solver_override'])
         if spec['time'] is None and rng.random() < 0.3:
             spec['ics']['t'] = rng.choice([1990.0, 2000.0, -1.0, 0.5])     # initial condition on the DEFAULT time axis
@@ -200,7 +208,12 @@ class C10(object):
                     solver.MaxTime = late      # assigned AFTER parsing: whatever it means, the result must be coherent
                 solver.SolveEquation()
         except ValueError as e:
-            return {'verdict': 'notjudged', 'shape': 'solve|' + type(e).__name__, 'obs': {'err': str(e)[:200]}}
+            if type(e).__name__ == 'ConvergenceError':
+                return {'verdict': 'notjudged', 'shape': 'solve|' + type(e).__name__, 'obs': {'err': str(e)[:200]}}
+            # every generated block is well formed: sufficient exogenous paths, evaluable initial values, a horizon
+            rec.violate('well_formed_block_rejected', {'err': repr(e)[:300], 'text': case['text'][:1500],
+                                                       'after_earlier_block': bool(case.get('earlier'))})
+            return {'verdict': 'violated', 'shape': 'solve', 'counters': rec.counters, 'violations': rec.violations}
         except (NameError, KeyError, AssertionError, IndexError) as e:
             rec.violate('well_formed_block_fails', {'err': repr(e)[:300], 'text': case['text'],
                                                     'after_earlier_block': bool(case.get('earlier'))})
@@ -256,6 +269,8 @@ class C10(object):
                                                            'source_prev': ts[l['src']][k - 1]})
                     break
         rec.count('time.judged')
+        if spec.get('case_variant_names'):
+            rec.count('time.judged.with_variable_T_next_to_default_t')
         if list(ts['k']) != [float(i) for i in range(T + 1)]:
             rec.violate('k_axis_wrong', {'got': list(ts['k'])[:8]})
         if spec['time'] is None:
